@@ -1047,7 +1047,6 @@ func (m *repoManager) deleteRepo(uuid dvid.UUID, passcode string) error {
 	for v := range r.dag.nodes {
 		u, found := m.versionToUUID[v]
 		if !found {
-			m.idMutex.Unlock()
 			dvid.Errorf("Found version id %d with no corresponding UUID on delete of repo %s!\n", v, uuid)
 			continue
 		}
@@ -1134,9 +1133,12 @@ func (m *repoManager) newRepo(alias, description string, assign *dvid.UUID, pass
 
 	m.repoMutex.Lock()
 	m.repos[uuid] = r
+	m.repoMutex.Unlock()
+
+	m.idMutex.Lock()
 	m.versionToUUID[v] = uuid
 	m.uuidToVersion[uuid] = v
-	m.repoMutex.Unlock()
+	m.idMutex.Unlock()
 
 	m.branchMutex.Lock()
 	m.branchToUUID[string(uuid)+"master"] = uuid
